@@ -193,6 +193,13 @@ def _ascii_hit_slice(base, rng):
     if not m:
         return None
     e = m.group(1)
+    # `s[p + n..]` with p the position of an n-byte ASCII needle found in `s` itself (memmem::find): the end of the hit
+    mk = re.match(r"^\((.*) AddWithOverflow (\d+)\)\.0$", e)
+    if mk and rng.startswith("std::ops::RangeFrom"):
+        mn = re.match(r"^(?:std::option::Option::ok_or\()?memchr::memmem::find\(" + re.escape(base) + r", b\"([ -!#-\[\]-~]+)\"\)(?:, .*\))?@(?:Some|Continue)\.0$", mk.group(1))
+        if mn and len(mn.group(1)) == int(mk.group(2)):
+            return ("slice of a string from the end of an ASCII needle found in that same string (memmem::find + needle length): "
+                    "a char boundary within its length")
     m1 = re.match(r"^\((.*) AddWithOverflow 1\)\.0$", e)
     pos = m1.group(1) if m1 else e
     if _ascii_hit_position(base, pos):
